@@ -310,8 +310,21 @@ def build_world(patched=True):
     return hw
 
 
-def pass_start(hw):
+def _py_live(g):
+    """Total size of the list/str data the script holds in its globals (the 'live data' of property C09)."""
+    n = 0
+    for k, v in g.items():
+        if k.startswith("__"):
+            continue
+        if isinstance(v, (list, str, tuple)):
+            n += len(v)
+    return n
+
+
+def pass_start(hw, g=None):
     """Called at the top of every main-loop pass of the transformed script."""
+    if g is not None:
+        eng().emit("pyheap", _py_live(g))
     eng().emit("marker", "loop")
     hw.in_pass = True
     hw.cur_samples = {}
@@ -364,7 +377,8 @@ def run_script(src: str, passes: int, patched=True, setup_done=None):
     code = compile(tree, "<script>", "exec")
     eng().emit("marker", "setup")
     g = {"__builtins__": hw.builtins, "__name__": "__main__", "__package__": None,
-         "__pass_start": lambda: pass_start(hw), "__range": range,
+         "__pass_start": lambda: pass_start(hw, g), "__range": range,
          "__setup_done": (lambda: setup_done(g, hw)) if setup_done else (lambda: None)}
     exec(code, g)
+    eng().emit("pyheap", _py_live(g))
     return hw
